@@ -1,7 +1,7 @@
 ------------------------------ MODULE Gen_C04 ------------------------------
 EXTENDS Keys, TLC, Json, IOUtils, SequencesExt
 CONSTANTS M, KN
-Alphabet == {"A","B","C","D","E","F","G","a","b","c","d","e","f","g","H","#","x"}
+Alphabet == {"A","B","C","D","E","F","G","a","b","c","d","e","f","g","H","#","x","%"}
 Strings(m) == UNION {[1..j -> Alphabet] : j \in 1..m}
 Cases == {[kind |-> "key", k |-> k] : k \in AllKeys \cup Strings(M) \cup {<<>>} \cup {k0 \o <<w>> : k0 \in AllKeys, w \in {"\n", " "}} \cup {<<w>> \o k0 : k0 \in {<<"C">>, <<"a">>}, w \in {"\n", " "}}} \cup      \* the empty string is a string too
          {[kind |-> "sig", i |-> i] : i \in -12..12} \cup
